@@ -25,6 +25,13 @@ SoupTiny == {"put ", "let ", "if ", "else ", "while ", "rock ", "roll ", "taking
              "says ", "- ", NLc, ", ", "'s ", "foo ", "Bar ", "the ", "it ", "5 ", "and ", "like ", "give ", "back "}
 SoupStmt == {"say ", "foo ", "is ", "5 ", NLc, "if ", "else ", "while ", "takes ", "give back ", "put ", "into ", "it ", ", ", "and ", "break ", "Bar ", "taking ", "- "}
 
+(* whole lines and line pieces: most sequences are several statements with block structure, many of them valid *)
+SoupLines == {"say foo" \o NLc, "put 5 into foo" \o NLc, "if foo" \o NLc, "else" \o NLc, NLc, "while foo" \o NLc, "foo takes bar" \o NLc,
+              "give back 1" \o NLc, "foo is 5" \o NLc, "foo is lovely day" \o NLc, "break" \o NLc, "say ", "foo ", "plus ", "5 ", ", ", "and ",
+              "taking ", "\"s\" ", "it ", "at ", "is ", "not ", "rock foo with ", "roll foo ", "into bar" \o NLc, "build foo up" \o NLc,
+              "listen to foo" \o NLc, "cut foo into bar with \",\"" \o NLc, "turn foo up" \o NLc, "continue" \o NLc, "foo says hi there" \o NLc,
+              "until foo is bar" \o NLc, "Bar Baz taking foo" \o NLc, "let foo be with 1, 2" \o NLc}
+
 Init == src = "" /\ phase = "gen" /\ ngen = 0
 Gen == /\ phase = "gen" /\ ngen < MaxLen
        /\ \E c \in Alphabet : src' = src \o c
